@@ -55,7 +55,7 @@ class LxmlSafeParsing(SimpleCodemod):
         self.add_needed_import("lxml.etree")
         safe_parser = "lxml.etree.XMLParser(resolve_entities=False)"
         new_args = self.replace_args(
-            original_node,
+            updated_node,
             [NewArg(name="parser", value=safe_parser, add_if_missing=True)],
         )
         return self.update_arg_target(updated_node, new_args)
